@@ -424,7 +424,10 @@ class Interp:
                 # niche-encoded enum (e.g. Option<bool>): the tag field holds niche_start + (variant - first niche variant)
                 # for the data-less niche variants, any other value is the untagged variant's own data
                 ni = enc["Niche"]
-                tag = m.get("tag", {}).get("Initialized", {}).get("value", {}).get("Int")
+                tagv_ = m.get("tag", {}).get("Initialized", {}).get("value", {})
+                tag = tagv_.get("Int")
+                if tag is None and "Pointer" in tagv_:
+                    tag = {"length": "I64"}        # Option<&T> / Option<Box<T>>: the niche is the null pointer
                 offs = lay["fields"]["Arbitrary"]["offsets"] if isinstance(lay.get("fields"), dict) and "Arbitrary" in lay["fields"] else None
                 if tag and offs:
                     tsize = {"I8": 1, "I16": 2, "I32": 4, "I64": 8, "I128": 16}[tag["length"]]
@@ -432,7 +435,8 @@ class Interp:
                     tv = int.from_bytes(data[toff:toff + tsize], "little")
                     lo_v, hi_v = ni["niche_variants"]["start"], ni["niche_variants"]["end"]
                     rel = (tv - ni["niche_start"]) % (1 << (8 * tsize))
-                    if rel <= hi_v - lo_v:
+                    has_ptr = any(p_[0] == toff for p_ in (ptrs or ()))      # a pointer with provenance is never the null niche
+                    if rel <= hi_v - lo_v and not has_ptr:
                         vi = lo_v + rel
                         if not vs[vi]["fields"]:
                             return En({vi: ()})
